@@ -55,6 +55,11 @@ CLAIMS = {
    text="Decides side conditions every tree rewrite must respect: left-to-right-only reasoning about a string's first rune runs only in left-to-right context (R-DIRCTX, local dominance or every call path guarded); ending-backtracking elimination is invoked only from the five contexts nothing can backtrack into (R-ATOMCTX); descending into a loop's child as 'what follows' requires M > 0 on that node (R-OPTLOOP); node-equality chains compare like fields (R-XFIELD). It does NOT decide the substance of the rewrites (class disjointness, nullability of what follows, MayOverlap) nor equality with the un-rewritten pattern.",
    note="Trusted: static callees only (the tree code has no dynamic dispatch); the direction test is recognised as any condition mentioning `& RightToLeft` or a bool derived from it.",
    ref="DESIGN.md §4 C05"),
+ "C15": dict(
+   technique="static analysis: who-may-write on the text position (SSA), set-valued constant evaluation of emit operands, argument-shape and sibling-agreement checks over the parser and interpreter (AST + types), direction-guard dominance and call-graph fixpoint",
+   text="Decides the structural carriers of direction: only the direction-aware accessors, textto, scan and the (left-to-right-only) finders may write the text position (R-DIRACC); every text-consuming instruction the writer emits carries the node's Rtl bit, which is derived from node.Options (R-DIRBITS); the parser attaches every concatenation through reverseLeft() (R-REVERSE); lookahead arms clear and lookbehind arms set the direction before the node is created (R-LOOKDIR); left-to-right-only reasoning stays in left-to-right context (R-DIRCTX); sibling interpreter handlers agree on their position arithmetic, including the use of bump() (R-SIB); folds over the match sequence consult the direction (R-DIRFOLD). It does NOT decide that each right-to-left branch computes the mirror image (anchor pre-filters, Boyer-Moore tables, capture spans).",
+   note="Trusted: the writer/finder tables in the rules name the accessor functions; finders named find…LeftToRight are accepted as left-to-right-only because R-RTLFILTER/R-MODE (C02/C03) show they are selected only for left-to-right programs.",
+   ref="DESIGN.md §4 C15"),
 }
 
 NOT_APPLICABLE = {
